@@ -12,6 +12,7 @@ impl Nondet {
     fn next(&mut self) -> u64 { let v = self.vals.get(self.pos).copied().unwrap_or(0); self.pos += 1; v }
     #[inline(never)] pub fn u64(&mut self, _name: &'static str) -> u64 { self.next() }
     #[inline(never)] pub fn usize(&mut self, _name: &'static str) -> usize { self.next() as usize }
+    #[inline(never)] pub fn i32(&mut self, _name: &'static str) -> i32 { self.next() as i32 }
     #[inline(never)] pub fn u16(&mut self, _name: &'static str) -> u16 { self.next() as u16 }
     #[inline(never)] pub fn u8(&mut self, _name: &'static str) -> u8 { self.next() as u8 }
     #[inline(never)] pub fn bool(&mut self, _name: &'static str) -> bool { self.next() & 1 == 1 }
